@@ -183,7 +183,11 @@ def run_heap(ctx, exe, groups, locale='C'):
         todo = list(idxs)
         while todo:
             lines = [l for i in todo for l in groups[i]]
-            p = subprocess.run([exe], input='\n'.join(lines) + '\n', capture_output=True, text=True, errors='replace', env=env)
+            try:
+                p = subprocess.run([exe], input='\n'.join(lines) + '\n', capture_output=True, text=True, errors='replace', env=env, timeout=600)
+            except subprocess.TimeoutExpired as ex:
+                class P: pass
+                p = P(); p.returncode = -9; p.stdout = ex.stdout.decode('latin1') if isinstance(ex.stdout, bytes) else (ex.stdout or ''); p.stderr = 'no answer within 600 s (hang)'
             out = p.stdout.split('\n'); out = out[:-1] if out and out[-1] == '' else out
             pos = 0; nxt = []
             for n, i in enumerate(todo):
